@@ -206,22 +206,33 @@ func (rh *RetryEventHandler) HandleEvents(startBlock *big.Int, endBlock *big.Int
 
 				for _, event := range bEvts {
 					if event.Name == events.DepositEvent {
-						d, err := DecodeDepositEvent(event.Fields)
-						if err != nil {
-							return err
-						}
+						// every deposit is handled on its own so that a malformed one
+						// can neither fail the range nor suppress the other deposits of the retried block
+						func(event parser.Event) {
+							defer func() {
+								if r := recover(); r != nil {
+									log.Error().Msgf("panic occured while handling retried deposit %+v because %s", event, r)
+								}
+							}()
+							d, err := DecodeDepositEvent(event.Fields)
+							if err != nil {
+								log.Error().Err(err).Msgf("%v", err)
+								return
+							}
 
-						messageID := fmt.Sprintf("retry-%d-%d-%d-%d", rh.domainID, d.DestDomainID, startBlock, endBlock)
-						m, err := rh.depositHandler.HandleDeposit(
-							rh.domainID, d.DestDomainID, d.DepositNonce, d.ResourceID, d.CallData, d.TransferType, messageID, d.Timestamp,
-						)
-						if err != nil {
-							return err
-						}
+							messageID := fmt.Sprintf("retry-%d-%d-%d-%d", rh.domainID, d.DestDomainID, startBlock, endBlock)
+							m, err := rh.depositHandler.HandleDeposit(
+								rh.domainID, d.DestDomainID, d.DepositNonce, d.ResourceID, d.CallData, d.TransferType, messageID, d.Timestamp,
+							)
+							if err != nil {
+								log.Error().Err(err).Msgf("%v", err)
+								return
+							}
 
-						rh.log.Info().Str("messageID", messageID).Msgf("Resolved retry message %+v", d)
+							rh.log.Info().Str("messageID", messageID).Msgf("Resolved retry message %+v", d)
 
-						domainDeposits[m.Destination] = append(domainDeposits[m.Destination], m)
+							domainDeposits[m.Destination] = append(domainDeposits[m.Destination], m)
+						}(*event)
 					}
 				}
 
